@@ -248,7 +248,17 @@ func (e *Env) reportBehave(prop string, results map[string][]behave.Result, bc *
 				e.Rep.Report(report.Finding{Key: prop + "|driver-error", CellID: cellID, What: r.Skipped})
 				continue
 			}
-			if r.Nontrivial > 0 {
+			isNT := r.Nontrivial > 0
+			if prop == "C16" {
+				// C16's rule: an accepted element pair executed with a non-empty source slice (freshness was actually probed)
+				isNT = false
+				for _, oc := range r.Outcomes {
+					if oc == "slice-fresh" {
+						isNT = true
+					}
+				}
+			}
+			if isNT {
 				nontrivial++
 				e.Rep.Nontrivial(cellID + "/" + r.Name)
 			}
